@@ -59,7 +59,9 @@ pub fn drive(d: &mut Driver)
 		// the limits of E390: 127 address markers, 127 access steps, and (since the repair of the
 		// second generation's recursion) 127 levels of nesting per declaration, which the first
 		// generation does not have: the nesting pumps stay below it (C15 probes the limit itself)
-		let reps: [usize; 6] = if k < 3 { [1, 2, 3, 16, 126, 127] } else { [1, 2, 3, 16, 100, 120] };
+		// the last kind is a sequence of declarations (no nesting at all): what one declaration
+		// leaves behind in the parser must not add up
+		let reps: [usize; 6] = if k < 3 { [1, 2, 3, 16, 126, 127] } else if k == 6 { [1, 2, 64, 128, 130, 300] } else { [1, 2, 3, 16, 100, 120] };
 		for r in reps
 		{
 			jobs.push(json!({"pump": k, "r": r}));
@@ -75,7 +77,7 @@ pub fn drive(d: &mut Driver)
 	d.assume("abstraction when comparing trees: locations erased; a negated positive signed literal equals Unary(-, literal); literal spelling is compared by value and suffix type; `return:` at the end of a body is the return value in both generations");
 }
 
-const PUMP_KINDS: [&str; 6] = ["index steps", "member steps", "address-of", "nested parentheses", "nested blocks", "else-if chain"];
+const PUMP_KINDS: [&str; 7] = ["index steps", "member steps", "address-of", "nested parentheses", "nested blocks", "else-if chain", "functions with a return value, then a constant"];
 
 fn pump_module(k: usize, r: usize) -> Vec<Decl>
 {
@@ -94,6 +96,21 @@ fn pump_module(k: usize, r: usize) -> Vec<Decl>
 				e = Expr::Paren(Box::new(e));
 			}
 			ast::wrap_expr(e)
+		}
+		"functions with a return value, then a constant" =>
+		{
+			let mut decls: Vec<Decl> = (0..r)
+				.map(|i| Decl::Fn {
+					flags: Flags::default(),
+					name: format!("f{i}"),
+					params: vec![],
+					trailing_comma: false,
+					ret: Some(Ty::Prim("i32")),
+					body: Some(Body { stmts: vec![], ret: Some(Expr::Paren(Box::new(Expr::Int("1".into())))) }),
+				})
+				.collect();
+			decls.push(Decl::Const { flags: Flags::default(), name: "LAST".into(), ty: Ty::Prim("i32"), value: Expr::Int("1".into()) });
+			decls
 		}
 		"nested blocks" =>
 		{
